@@ -24,7 +24,14 @@ def configs(P, rng):
         cs.append({"name": "magic * exclude " + rel, "args": ["-j1", "--magic-transform=*", "--magic-transform-exclude=" + rel]})
     return cs
 
+def known_sig(desc, P, case, cfg, o):
+    # the `magic` QUALIFIER triggers the magic-set transformation without the eqrel expansion that --magic-transform
+    # enables (MainDriver: ExpandEqrelsTransformer is conditional on the option), so tuples of eqrel relations are lost
+    if cfg["name"].startswith("qualifier magic ") and any(r.get("eqrel") for r in P["rels"]) and o is not None and o.kind == "ok":
+        return "magic-qualifier-on-program-with-eqrel"
+    return None
+
 def run(tier, replay=None):
     return evalprop.run_eval("C05", tier, lambda s, n: gen.programs(s, n, eqrel=True, hide_some=True), configs,
                              ["relation subsets: exhaustive for <=4 IDB relations, 10 seeded subsets beyond"],
-                             n=(10, 120), max_cases=(8, 32))
+                             n=(10, 120), max_cases=(8, 32), known_sig=known_sig)
